@@ -10,6 +10,8 @@ package udp
 // plain datagram socket of the harness that sends a plain datagram with send(2) and a coalesced one as one
 // UDP_SEGMENT superpacket (loopback hands it to a UDP_GRO socket unsegmented, with the cmsg gso_size).
 //
+// One connection plays a group of histories (see c27lConn).
+//
 // Rounds are imposed without touching the loop: ListenOut calls flush() after every round; the harness parks the
 // loop inside flush(), sends the datagrams of the next round one by one (waiting for the socket's rmem_alloc to
 // rise after each, so they are queued), and only then lets the loop return to recvmmsg, which picks all of them up
@@ -157,121 +159,137 @@ func c27lProbe(t testing.TB, tx *c27lSender) (groSeen, plainLeavesBuffer bool) {
 	return true, oobn == 0 && bytes.Equal(before, oob)
 }
 
-type c27lRun struct {
-	pieces     []c27lPiece
-	windows    int // flushes seen
-	problem    string
-	machinery  string
-	misaligned bool
+// c27lConn is one real StdConn whose real ListenOut runs in a goroutine, parked inside flush() between rounds.
+// Opening and closing a UDP_GRO socket costs milliseconds in the kernel, so one connection plays a GROUP of
+// histories one after the other: the batch slots then start a history with whatever the previous history left in
+// them.  That is sound for the verdict (the specification of a datagram does not depend on the slot's past -- that is
+// the property) and the harness keeps the real per-slot past across histories for the coverage classes.
+type c27lConn struct {
+	rx      *StdConn
+	to      netip.AddrPort
+	flushed chan struct{}
+	gate    chan struct{}
+	done    chan error
+	pieces  []c27lPiece // written by the loop goroutine only while the harness waits for flushed
+	win     int
+	closed  bool
+	// what the harness knows about the real slots (by observed flush windows)
+	slotStale map[int]int
+	slotPrev  map[int]string
+	taken     int // pieces already attributed
 }
 
-// c27lPlay plays one history on a fresh StdConn; datagram 0 is the primer.
-func c27lPlay(tx *c27lSender, rounds [][]c27lDgram, payloads [][]byte) (run c27lRun) {
+func c27lOpen(tx *c27lSender) (*c27lConn, string) {
 	c, err := NewListener(slog.New(slog.DiscardHandler), Settings{Listen: netip.MustParseAddrPort("127.0.0.1:0"), Batch: 4, Offloads: true})
 	if err != nil {
-		run.machinery = fmt.Sprintf("NewListener: %v", err)
-		return
+		return nil, fmt.Sprintf("NewListener: %v", err)
 	}
 	rx := c.(*StdConn)
 	if !rx.groSupported {
 		_ = rx.Close()
-		run.machinery = "no-gro"
-		return
+		return nil, "no-gro"
 	}
 	to, err := rx.LocalAddr()
 	if err != nil {
 		_ = rx.Close()
-		run.machinery = fmt.Sprintf("LocalAddr: %v", err)
-		return
+		return nil, fmt.Sprintf("LocalAddr: %v", err)
 	}
-	flushed := make(chan struct{}, 1)
-	gate := make(chan struct{})
-	done := make(chan error, 1)
-	var pieces []c27lPiece
-	win := 0
+	cn := &c27lConn{rx: rx, to: to, flushed: make(chan struct{}, 1), gate: make(chan struct{}), done: make(chan error, 1),
+		slotStale: map[int]int{}, slotPrev: map[int]string{}}
 	go func() {
-		done <- rx.ListenOut(func(from netip.AddrPort, p []byte) {
-			pieces = append(pieces, c27lPiece{win: win, from: from, b: append([]byte(nil), p...)})
+		cn.done <- rx.ListenOut(func(from netip.AddrPort, p []byte) {
+			cn.pieces = append(cn.pieces, c27lPiece{win: cn.win, from: from, b: append([]byte(nil), p...)})
 		}, func() {
-			win++
-			flushed <- struct{}{}
-			<-gate
+			cn.win++
+			cn.flushed <- struct{}{}
+			<-cn.gate
 		})
 	}()
-	closed := false
-	finish := func() {
-		if closed {
-			return
-		}
-		closed = true
-		_ = rx.Close()
-		close(gate)
-		select {
-		case <-done:
-		case <-time.After(20 * time.Second):
-			run.machinery = "ListenOut did not return after Close"
-		}
-	}
-	defer finish()
-	waitFlush := func() bool {
-		select {
-		case <-flushed:
-			return true
-		case <-time.After(20 * time.Second):
-			run.machinery = "timed out waiting for the loop to finish a round"
-			return false
-		}
-	}
-	sendQueued := func(p []byte, gro int) bool {
-		before, err := c27lRmem(rx.sysFd)
-		if err != nil {
-			run.machinery = fmt.Sprintf("SO_MEMINFO: %v", err)
-			return false
-		}
-		if err := tx.send(to, p, gro); err != nil {
-			run.machinery = fmt.Sprintf("send(len=%d, gro=%d): %v", len(p), gro, err)
-			return false
-		}
-		deadline := time.Now().Add(10 * time.Second)
-		for spin := 0; ; spin++ {
-			now, err := c27lRmem(rx.sysFd)
-			if err == nil && now > before {
-				return true
-			}
-			if time.Now().After(deadline) {
-				run.machinery = "datagram never showed up in the receive queue"
-				return false
-			}
-			if spin > 50 {
-				time.Sleep(50 * time.Microsecond)
-			}
-		}
-	}
 	// primer: the loop is parked in recvmmsg; one plain byte brings it to flush()
-	if err := tx.send(to, payloads[0], 0); err != nil {
-		run.machinery = fmt.Sprintf("send primer: %v", err)
-		return
+	if err := tx.send(to, []byte{0x5a}, 0); err != nil {
+		cn.close()
+		return nil, fmt.Sprintf("send primer: %v", err)
 	}
-	if !waitFlush() {
-		return
+	if m := cn.waitFlush(); m != "" {
+		cn.close()
+		return nil, m
 	}
-	d := 1
+	if len(cn.pieces) != 1 || len(cn.pieces[0].b) != 1 {
+		cn.close()
+		return nil, "primer datagram not delivered as one piece"
+	}
+	cn.taken = 1
+	cn.slotPrev[0] = "plain"
+	return cn, ""
+}
+
+func (cn *c27lConn) close() string {
+	if cn.closed {
+		return ""
+	}
+	cn.closed = true
+	_ = cn.rx.Close()
+	close(cn.gate)
+	select {
+	case <-cn.done:
+		return ""
+	case <-time.After(20 * time.Second):
+		return "ListenOut did not return after Close"
+	}
+}
+
+func (cn *c27lConn) waitFlush() string {
+	select {
+	case <-cn.flushed:
+		return ""
+	case <-time.After(20 * time.Second):
+		return "timed out waiting for the loop to finish a round"
+	}
+}
+
+func (cn *c27lConn) sendQueued(tx *c27lSender, p []byte, gro int) string {
+	before, err := c27lRmem(cn.rx.sysFd)
+	if err != nil {
+		return fmt.Sprintf("SO_MEMINFO: %v", err)
+	}
+	if err := tx.send(cn.to, p, gro); err != nil {
+		return fmt.Sprintf("send(len=%d, gro=%d): %v", len(p), gro, err)
+	}
+	deadline := time.Now().Add(10 * time.Second)
+	for spin := 0; ; spin++ {
+		now, err := c27lRmem(cn.rx.sysFd)
+		if err == nil && now > before {
+			return ""
+		}
+		if time.Now().After(deadline) {
+			return "datagram never showed up in the receive queue"
+		}
+		if spin > 50 {
+			time.Sleep(50 * time.Microsecond)
+		}
+	}
+}
+
+// play sends the rounds of one history (payloads in sending order) and returns the pieces delivered for them and the
+// number of the flush window before the first round.
+func (cn *c27lConn) play(tx *c27lSender, rounds [][]c27lDgram, payloads [][]byte) (pieces []c27lPiece, win0 int, machinery string) {
+	win0 = cn.win
+	d := 0
 	for _, round := range rounds {
 		for _, dg := range round {
-			if !sendQueued(payloads[d], dg.Gro) {
-				return
+			if m := cn.sendQueued(tx, payloads[d], dg.Gro); m != "" {
+				return nil, win0, m
 			}
 			d++
 		}
-		gate <- struct{}{}
-		if !waitFlush() {
-			return
+		cn.gate <- struct{}{}
+		if m := cn.waitFlush(); m != "" {
+			return nil, win0, m
 		}
 	}
-	finish()
-	run.pieces = pieces
-	run.windows = win
-	return
+	pieces = cn.pieces[cn.taken:]
+	cn.taken = len(cn.pieces)
+	return pieces, win0, ""
 }
 
 func c27lClassPlain(stale, ln int) string {
@@ -284,6 +302,8 @@ func c27lClassPlain(stale, ln int) string {
 		return "plain:stale-size-not-below-length"
 	}
 }
+
+const c27lGroup = 40 // histories per connection
 
 // c27RunLoop plays every loop vector; called by TestVerif_C27.
 func c27RunLoop(t *testing.T, res *vResult, lines [][]byte) {
@@ -301,19 +321,26 @@ func c27RunLoop(t *testing.T, res *vResult, lines [][]byte) {
 	if leaves {
 		res.Hit("loop:probe:plain-leaves-ancillary-buffer")
 	}
-	misaligned, retried := 0, 0
+	misaligned, reopened, conns := 0, 0, 0
+	var cn *c27lConn
+	defer func() {
+		if cn != nil {
+			cn.close()
+		}
+	}()
+	inGroup := 0
 	for _, line := range lines {
 		var v c27lVec
 		if err := json.Unmarshal(line, &v); err != nil {
 			t.Fatalf("loop vector: %v: %s", err, line)
 		}
-		// datagrams of the history in sending order; 0 = primer
+		// datagrams of the history in sending order
 		type dgram struct {
 			round, slot int
 			c27lDgram
 			exp []int
 		}
-		dgs := []dgram{{round: -1, c27lDgram: c27lDgram{Len: 1}, exp: []int{1}}}
+		var dgs []dgram
 		for r, round := range v.In.Rounds {
 			if len(round) > v.In.Slots || len(v.Exp[r]) != len(round) {
 				t.Fatalf("verif: malformed loop vector: %s", line)
@@ -324,38 +351,60 @@ func c27RunLoop(t *testing.T, res *vResult, lines [][]byte) {
 		}
 		payloads := make([][]byte, len(dgs))
 		for d := range dgs {
-			payloads[d] = c27lPayload(d, dgs[d].Len)
+			payloads[d] = c27lPayload(d+inGroup*7, dgs[d].Len)
 		}
-		var run c27lRun
+		var pieces []c27lPiece
+		win0 := 0
 		for attempt := 0; ; attempt++ {
-			run = c27lPlay(tx, v.In.Rounds, payloads)
-			if run.machinery == "" {
+			m := ""
+			if cn == nil || inGroup >= c27lGroup {
+				if cn != nil {
+					if m = cn.close(); m != "" {
+						t.Fatalf("verif: %s", m)
+					}
+				}
+				inGroup = 0
+				cn, m = c27lOpen(tx)
+				conns++
+			}
+			if m == "" {
+				pieces, win0, m = cn.play(tx, v.In.Rounds, payloads)
+			}
+			if m == "" {
 				break
 			}
-			if run.machinery == "no-gro" {
+			if m == "no-gro" {
 				res.Hit("loop:no-gro")
 				return
 			}
-			if attempt == 2 {
-				t.Fatalf("verif: cannot play history %s: %s", line, run.machinery)
+			if cn != nil {
+				cn.close()
+				cn = nil
 			}
-			retried++
+			if attempt == 2 {
+				t.Fatalf("verif: cannot play history %s: %s", line, m)
+			}
+			reopened++
 		}
+		fresh := inGroup == 0
+		inGroup++
 		res.Hit("loop")
+		if fresh {
+			res.Hit("loop:history-on-fresh-connection")
+		}
 		res.Case("loop/" + string(line[:min(len(line), 400)]))
 
 		// walk the piece stream datagram by datagram
 		gi := 0
-		slotStale := map[int]int{}   // actual slot -> size left there by an earlier round
-		slotPrev := map[int]string{} // actual slot -> kind of its previous datagram
-		winCount := map[int]int{}    // window -> datagrams that started in it
+		winCount := map[int]int{} // window -> datagrams that started in it
 		aligned := true
+		broken := false
 		for d, dg := range dgs {
 			var lens []int
 			covered, problem := 0, ""
 			win := -1
-			for covered < dg.Len && gi < len(run.pieces) {
-				p := run.pieces[gi]
+			for covered < dg.Len && gi < len(pieces) {
+				p := pieces[gi]
 				if win < 0 {
 					win = p.win
 				}
@@ -366,20 +415,24 @@ func c27RunLoop(t *testing.T, res *vResult, lines [][]byte) {
 					problem = fmt.Sprintf("piece of %d bytes is not the received bytes at offset %d of the datagram", len(p.b), covered)
 					lens = append(lens, len(p.b))
 					gi++
+					broken = true
 					break
 				}
 				lens = append(lens, len(p.b))
 				covered += len(p.b)
 				gi++
 			}
-			slot := winCount[win]
-			winCount[win]++
-			if dg.round >= 0 && (win != dg.round+1 || slot != dg.slot) {
-				aligned = false
+			slot := dg.slot
+			if win >= 0 {
+				slot = winCount[win]
+				winCount[win]++
+				if win != win0+dg.round || slot != dg.slot {
+					aligned = false
+				}
 			}
 			cls := ""
 			if dg.Gro > 0 {
-				switch slotPrev[slot] {
+				switch cn.slotPrev[slot] {
 				case "":
 					cls = "coalesced:fresh-slot"
 				case "plain":
@@ -388,40 +441,43 @@ func c27RunLoop(t *testing.T, res *vResult, lines [][]byte) {
 					cls = "coalesced:after-coalesced"
 				}
 			} else {
-				cls = c27lClassPlain(slotStale[slot], dg.Len)
+				cls = c27lClassPlain(cn.slotStale[slot], dg.Len)
 			}
-			if dg.round >= 0 {
-				res.Hit("loop:" + cls)
-				if slot == 1 {
-					res.Hit("loop:second-slot:" + cls)
-				}
+			res.Hit("loop:" + cls)
+			if slot == 1 {
+				res.Hit("loop:second-slot:" + cls)
 			}
-			detail := map[string]any{"rounds": v.In.Rounds, "datagram": d, "round": dg.round + 1, "slot": slot + 1,
-				"len": dg.Len, "kernel_size_this_round": dg.Gro, "size_left_in_slot_by_earlier_round": slotStale[slot],
-				"delivered": lens, "specification": dg.exp}
+			detail := map[string]any{"rounds": v.In.Rounds, "datagram": d + 1, "round": dg.round + 1, "slot": slot + 1,
+				"len": dg.Len, "kernel_size_this_round": dg.Gro, "size_left_in_slot_by_earlier_round": cn.slotStale[slot],
+				"delivered": lens, "specification": dg.exp, "history_on_fresh_connection": fresh}
 			if problem == "" && covered < dg.Len {
 				problem = fmt.Sprintf("only %d of %d bytes delivered", covered, dg.Len)
+				broken = true
 			}
-			if !c27Same(lens, dg.exp) && (problem == "" || covered == dg.Len) {
+			if !c27Same(lens, dg.exp) && !broken {
 				res.Mismatch("loop:"+cls, fmt.Sprintf("ListenOut delivered a %d-byte datagram (kernel size in this round: %d; size left in the slot by "+
-					"an earlier round: %d) as pieces %v, specification %v", dg.Len, dg.Gro, slotStale[slot], lens, dg.exp), detail)
+					"an earlier round: %d) as pieces %v, specification %v", dg.Len, dg.Gro, cn.slotStale[slot], lens, dg.exp), detail)
 			} else if problem != "" {
 				res.Mismatch("loop:bytes:"+cls, fmt.Sprintf("ListenOut, %d-byte datagram (kernel size %d): %s", dg.Len, dg.Gro, problem), detail)
 			}
-			if problem != "" {
-				gi = len(run.pieces) // no way to resynchronise
+			if dg.Gro > 0 {
+				cn.slotStale[slot] = dg.Gro
+				cn.slotPrev[slot] = "coalesced"
+			} else {
+				cn.slotPrev[slot] = "plain"
+			}
+			if broken {
 				break
 			}
-			if dg.Gro > 0 {
-				slotStale[slot] = dg.Gro
-				slotPrev[slot] = "coalesced"
-			} else {
-				slotPrev[slot] = "plain"
-			}
 		}
-		if gi < len(run.pieces) {
-			res.Mismatch("loop:extra", fmt.Sprintf("ListenOut delivered %d pieces more than were received", len(run.pieces)-gi),
+		if !broken && gi < len(pieces) {
+			res.Mismatch("loop:extra", fmt.Sprintf("ListenOut delivered %d pieces more than were received", len(pieces)-gi),
 				map[string]any{"rounds": v.In.Rounds})
+			broken = true
+		}
+		if broken { // what the slots hold is no longer known: start over
+			cn.close()
+			cn = nil
 		}
 		if !aligned {
 			misaligned++
@@ -429,7 +485,8 @@ func c27RunLoop(t *testing.T, res *vResult, lines [][]byte) {
 	}
 	res.mu.Lock()
 	res.Extra["loop_histories"] = len(lines)
+	res.Extra["loop_connections"] = conns
 	res.Extra["loop_histories_whose_rounds_the_kernel_cut_differently"] = misaligned
-	res.Extra["loop_histories_replayed_after_a_socket_problem"] = retried
+	res.Extra["loop_connections_reopened_after_a_socket_problem"] = reopened
 	res.mu.Unlock()
 }
